@@ -2,6 +2,7 @@ package evaluator
 
 import (
 	"github.com/modernizing/coca/pkg/domain/core_domain"
+	"strings"
 )
 
 type NullPointException struct {
@@ -21,7 +22,9 @@ func (n NullPointException) EvaluateList(evaluateModel *EvaluateModel, nodes []c
 				nullableMap[methodName] = methodName
 			} else {
 				for _, annotation := range method.Annotations {
-					if annotation.Name == "Nullable" || annotation.Name == "CheckForNull" {
+					// the annotation may be written with its package: @javax.annotation.Nullable
+					name := annotation.Name[strings.LastIndex(annotation.Name, ".")+1:]
+					if name == "Nullable" || name == "CheckForNull" {
 						nullableMap[methodName] = methodName
 					}
 				}
